@@ -26,7 +26,17 @@ def main():
         if a.replay:
             rc = mod.replay(chk, a.replay)
             sys.exit(rc)
-        mod.run(chk)
+        # the thorough tier repeats the whole exploration with further seeds (same regenerated model, same proofs - memoised -,
+        # fresh documents / expressions / histories each round); the exhaustive parts dominate C18 and C02
+        rounds = {"C18": 2, "C02": 3}.get(a.prop, 6) if a.tier == "thorough" else 1
+        base = lib.seed()
+        os.environ["VERIF_BASE_SEED"] = str(base)
+        for r in range(rounds):
+            os.environ["VERIF_SEED"] = str(base + r)
+            mod.run(chk)
+            if chk.violations:
+                break
+        chk.cov["rounds"] = "%d round(s), seeds %d..%d" % (r + 1, base, base + r)
     except SystemExit as e:
         if isinstance(e.code, int) or e.code is None:
             raise
